@@ -209,9 +209,11 @@ func (k Keeper) ForceValidatorUnstake(ctx sdk.Ctx, validator types.Validator) sd
 	// delete the validator from staking set as they are unstaked
 	k.deleteValidatorFromStakingSet(ctx, validator)
 	// amount unstaked = stakedTokens
-	err := k.burnStakedTokens(ctx, validator.StakedTokens)
-	if err != nil {
-		return err
+	if validator.StakedTokens.IsPositive() {
+		err := k.burnStakedTokens(ctx, validator.StakedTokens)
+		if err != nil {
+			return err
+		}
 	}
 	// remove their tokens from the field
 	validator = validator.RemoveStakedTokens(validator.StakedTokens)
